@@ -89,7 +89,8 @@ impl Matcher for SingleExecMatcher {
         match command.status() {
             Ok(status) => status.success(),
             Err(e) => {
-                writeln!(&mut stderr(), "Failed to run {}: {}", self.executable, e).unwrap();
+                // A diagnostic that cannot be written must not stop the walk.
+                let _ = writeln!(&mut stderr(), "Failed to run {}: {}", self.executable, e);
                 false
             }
         }
@@ -138,7 +139,8 @@ impl MultiExecMatcher {
                 }
             }
             Err(e) => {
-                writeln!(&mut stderr(), "Failed to run {}: {}", self.executable, e).unwrap();
+                // A diagnostic that cannot be written must not stop the walk.
+                let _ = writeln!(&mut stderr(), "Failed to run {}: {}", self.executable, e);
                 matcher_io.set_exit_code(1);
             }
         }
